@@ -1,5 +1,6 @@
 """C10 — schema-directed JSON <-> binary conversion (structural part)."""
 from .common import *
+from vlib.mir import path_conditions
 from .codec import *
 from vlib.transcript import rpo
 
@@ -119,6 +120,26 @@ def run(ck):
                 # a byte list read back by read_u8 in a loop corresponds to u8 items written one by one
                 ck.ob("KSYM", "schema::Type::" + n, "codec-classes", wc == rc, "written %s / read %s" % (sorted(wc), sorted(rc)), w.loc(wm[i]),
                       sample=dict(rule="KSYM", constructor=n, written=sorted(wc), read=sorted(rc)))
+            # the width of an enum tag is chosen by the NUMBER OF VARIANTS on both sides (and by the contract-side derive):
+            # the one-byte form must sit under a comparison of variants.len() with 256, not under a test of the index
+            if "Enum" in names and names.index("Enum") in wm and names.index("Enum") in rm:
+                ei = names.index("Enum")
+                for f, tb, pat, what in ((w, wm[ei], r"::write_u8$", "json->bytes"), (r, rm[ei], r"traits::Deserial::deserial$", "bytes->json")):
+                    region = sym.dominated(f, tb)
+                    sites = [(bi, t) for (bi, t) in f.calls(pat) if bi in region and (what == "json->bytes" or (t["f"].get("self") or "") == "u8")]
+                    ck.ob("CMP", f.path, "enum-tag-u8-sites:" + what, len(sites) >= 1, "%d one-byte tag sites" % len(sites), f.loc(tb), nontrivial=False)
+                    for k, (bi, t) in enumerate(sites):
+                        guards = []
+                        for (sb, val) in path_conditions(f, bi):
+                            for cx in rules.comparisons(f):
+                                br = rules.cmp_branches(f, cx)
+                                if br and br[0] == sb:
+                                    o = f.origins(cx["a"], deep=True) | f.origins(cx["b"], deep=True)
+                                    guards.append((cx["op"], any(a[0] == "call" and a[1].endswith("::len") for a in o), sorted(set(a[1] for a in o if a[0] == "lit"))))
+                        ok = any(g[1] and 256 in g[2] for g in guards)
+                        ck.ob("CMP", f.path, "enum-tag-width-by-variant-count:%s#%d" % (what, k), ok,
+                              "the one-byte tag is used under a comparison of the number of variants with 256" if ok else
+                              "the one-byte tag is not guarded by a comparison of variants.len() with 256 (guards found: %s): the two directions and the contract-side encoding disagree for enums with more than 256 variants" % guards, f.loc(bi))
     # Fields
     fa = c.adts.get(CC + "::schema::Fields")
     wf, rf = getfn(ck, "rs", CC, WF), getfn(ck, "rs", CC, RF)
@@ -177,3 +198,43 @@ def run(ck):
              CC + "::schema_json::deserial_biguint", CC + "::schema_json::deserial_bigint"]
     alloc_err_sweep(ck, cg, [x for x in roots if x in cg.bodies], floor=4,
                     scope_pred=lambda p: "schema_json" in p or "::schema::" in p)
+
+    # totality on truncated input: inside a loop driven by a declared length, a failed read ends the loop. A loop that
+    # records the failure and goes on performs `length` iterations (each allocating an error) on an input that only holds
+    # the length prefix.
+    CONSUME = re.compile(r"traits::Read::read[a-z_0-9]*$|traits::Deserial::deserial$|schema_json::.*to_json$|schema_json::deserial_[a-z_]+$|"
+                         r"ops::Fn::call$|ops::FnMut::call_mut$|traits::Get::get$")
+    nl = 0
+    for p in sorted(c.paths()):
+        if "schema_json" not in p:
+            continue
+        for b in c.get_all(p):
+            f = Fn(b)
+            for (bi, t) in f.calls(CONSUME):
+                if bi not in f.reach_from(f.succ(bi)):
+                    continue
+                r = rules.enforcement(f, bi)
+                nl += 1
+                ck.ob("ENF", p, "loop-read-enforced:%s@%s" % (t["f"]["name"], len([x for x in f.calls(CONSUME) if x[0] < bi])), r["status"] in ("enforced", "propagated"),
+                      "a failed %s inside the length-driven loop leaves the loop (%s)" % (t["f"]["name"], r["status"]) if r["status"] in ("enforced", "propagated") else
+                      "the result of %s inside a length-driven loop is %s: on truncated input the loop runs for the whole declared length, allocating an error per element" % (t["f"]["name"], r["status"]), f.loc(bi))
+    ck.floor("ENF", "input-consuming calls inside loops of schema_json", nl, 9)
+
+    # exact consumption: a non-exact read (which may return fewer OR as many bytes as the buffer holds) is given a buffer
+    # bounded by what is left of the declared length, otherwise bytes that follow the value are consumed
+    nr = 0
+    for p in sorted(c.paths()):
+        if "schema_json" not in p and "::impls::" not in p:
+            continue
+        if re.search(r"Read for |::read_exact$", p):
+            continue            # adaptors implementing Read itself
+        for b in c.get_all(p):
+            f = Fn(b)
+            for (bi, t) in f.calls(r"traits::Read::read$|io::Read::read$"):
+                o = f.origins(t["args"][1], deep=True)
+                bounded = any(a[0] == "call" and re.search(r"cmp::min$|Ord::min$", a[1]) for a in o) or any(a[0] == "bin" and a[1].startswith("Sub") for a in o)
+                nr += 1
+                ck.ob("CMP", p, "partial-read-bounded-by-remaining", bounded,
+                      "the buffer handed to read() is cut to the remaining length" if bounded else
+                      "read() is given the whole chunk buffer although fewer bytes may remain of the declared length: it can consume bytes that follow the value, after which the length test fails", f.loc(bi))
+    ck.floor("CMP", "non-exact reads in schema decoders", nr, 1)
